@@ -147,6 +147,22 @@ func init() {
 func runC08(e *Env) {
 	r := e.R
 	m := buildLoaderModel(e, "E3.chain")
+	mk := r.Mark()
+	runC08intra(e, m)
+	if t := traceFallback(e, m, mk, []string{"chain"}, "E3.chain", "E3.copy"); t != nil {
+		r.Floor("E3.chain(raw sites)", len(m.sites), 2)
+		checkSeccompWrapper(e, m, "E3.chain")
+		if t.convFn != nil {
+			checkSockFilterCopy(e, m.p, t.convFn)
+		} else {
+			r.Unknown("E3.copy", "conversion", "", "the sock_filter conversion function was not identified")
+		}
+	}
+}
+
+// runC08intra: the chain read off LoadFilter as one function (helpers with a single return are looked through).
+func runC08intra(e *Env, m *loaderModel) {
+	r := e.R
 	p := m.p
 	fn := m.loadF
 	if fn == nil || m.seccompW == nil {
@@ -162,7 +178,7 @@ func runC08(e *Env) {
 		return
 	}
 	recv := m.res.Of(as[0].Call.Args[0], nil, as[0])
-	okRecv := recv.Kind == origin.KField && recv.Field.Name() == "Policy" && recv.Args[0].Kind == origin.KAlloc && isParamSpill(recv.Args[0], fn.Params[0])
+	okRecv := recv.Kind == origin.KField && recv.Field.Name() == "Policy" && recv.Args[0].Kind == origin.KAlloc && isParamSpill(recv.Args[0], fn.Params[0]) && cleanSpillField(recv.Args[0].Val.(*ssa.Alloc), fn.Params[0], recv.Field)
 	okRecv = okRecv || origin.FieldOfParam(recv, fn.Params[0], "Policy")
 	r.Check(okRecv, "E3.chain", "LoadFilter/1-policy", p.Pos(as[0].Pos()), "the compiled policy is the Policy field of the filter argument", "Policy.Assemble is not called on filter.Policy (origin "+recv.String()+")")
 	links++
@@ -744,6 +760,22 @@ func runC09(e *Env) {
 		}
 	}
 	// ---- LoadFilter error discipline
+	mk := r.Mark()
+	runC09intra(e, m)
+	traceFallback(e, m, mk, []string{"errdisc", "order"}, "E3.errdisc", "E3.order")
+	// other functions of the loader file must not be called from Policy.Assemble etc. (no syscall on the compile path)
+	if pa := p.Func(load.PkgRoot, "Policy.Assemble"); pa != nil {
+		for _, target := range []*ssa.Function{m.seccompW, m.prctlW} {
+			r.Check(!reachesFn(pa, target, map[*ssa.Function]bool{}), "E3.order.compile", "Policy.Assemble/no-syscall/"+load.FuncName(target), p.Pos(pa.Pos()), "the compiler cannot reach a raw system call", "Policy.Assemble can reach a raw system call")
+		}
+	}
+	checkProbe(e, m)
+}
+
+// runC09intra: error discipline and ordering read off LoadFilter as one function.
+func runC09intra(e *Env, m *loaderModel) {
+	r := e.R
+	p := m.p
 	fn := m.loadF
 	if fn == nil {
 		r.Unknown("E3.errdisc", "LoadFilter", "", "not found")
@@ -827,13 +859,6 @@ func runC09(e *Env) {
 		}
 	}
 	r.Floor("E3.order(syscall-reaching calls)", nSys, 2)
-	// other functions of the loader file must not be called from Policy.Assemble etc. (no syscall on the compile path)
-	if pa := p.Func(load.PkgRoot, "Policy.Assemble"); pa != nil {
-		for _, target := range []*ssa.Function{m.seccompW, m.prctlW} {
-			r.Check(!reachesFn(pa, target, map[*ssa.Function]bool{}), "E3.order", "Policy.Assemble/no-syscall/"+load.FuncName(target), p.Pos(pa.Pos()), "the compiler cannot reach a raw system call", "Policy.Assemble can reach a raw system call")
-		}
-	}
-	checkProbe(e, m)
 }
 
 func checkProbe(e *Env, m *loaderModel) {
@@ -974,13 +999,15 @@ func runC10(e *Env) {
 		r.Unknown("E3.flagflow", "LoadFilter", "", "LoadFilter or seccomp wrapper not found")
 		return
 	}
+	mk := r.Mark()
 	ws := callsToFn(fn, m.seccompW)
-	r.Floor("E3.flagflow(wrapper calls in LoadFilter)", len(ws), 1)
+	r.Floor("E3.flagflow.arg(wrapper calls in LoadFilter)", len(ws), 1)
 	for _, w := range ws {
 		o := m.res.Of(w.Call.Args[1], nil, w)
 		good := origin.FieldOfParam(o, fn.Params[0], "Flag")
-		r.Check(good, "E3.flagflow", "LoadFilter/flags", p.Pos(w.Pos()), "the flags argument is filter.Flag, unchanged", "the flags argument of the seccomp call is "+o.String()+", not filter.Flag unchanged")
+		r.Check(good, "E3.flagflow.arg", "LoadFilter/flags", p.Pos(w.Pos()), "the flags argument is filter.Flag, unchanged", "the flags argument of the seccomp call is "+o.String()+", not filter.Flag unchanged")
 	}
+	traceFallback(e, m, mk, []string{"flags"}, "E3.flagflow.arg")
 	// no second installation path that cannot carry the flag word: prctl(PR_SET_SECCOMP, SECCOMP_MODE_FILTER, prog) has no
 	// flags argument, so a filter installed that way covers the calling thread only, whatever Filter.Flag says
 	setSeccomp := int64(e.Oracle().Consts["PR_SET_SECCOMP"])
@@ -1083,22 +1110,76 @@ func checkSandboxFlag(e *Env, p *load.Program, rule string) {
 	var al *ssa.Alloc
 	if ok {
 		al, _ = ld.X.(*ssa.Alloc)
+		if fv, isFV := ld.X.(*ssa.FreeVar); isFV {
+			// a variable of the enclosing function, shared by closures: the cell it is bound to
+			for _, f := range p.SrcFuncs(load.PkgSandbox) {
+				for _, b := range f.Blocks {
+					for _, in := range b.Instrs {
+						mc, isMC := in.(*ssa.MakeClosure)
+						if !isMC || mc.Fn != ssa.Value(fv.Parent()) {
+							continue
+						}
+						for i, fvar := range fv.Parent().FreeVars {
+							if fvar == fv && i < len(mc.Bindings) {
+								al, _ = mc.Bindings[i].(*ssa.Alloc)
+							}
+						}
+					}
+				}
+			}
+		}
 	}
 	if al == nil {
 		r.Unknown(rule, "sandbox.main/filter-literal", p.Pos(ls[0].Pos()), "LoadFilter's argument is not a local Filter literal")
 		return
 	}
-	st := al.Type().Underlying().(*types.Pointer).Elem().Underlying().(*types.Struct)
+	// every value the Flag field of that variable is given: field stores, and whole-value stores of another literal,
+	// in the declaring function and in the closures that capture the variable
 	var flagOs []*origin.O
-	for _, ref := range *al.Referrers() {
-		if fa, ok := ref.(*ssa.FieldAddr); ok && st.Field(fa.Field).Name() == "Flag" {
-			for _, r2 := range *fa.Referrers() {
-				if s, ok := r2.(*ssa.Store); ok && s.Addr == fa {
-					flagOs = append(flagOs, res.Of(s.Val, nil, s))
+	var collect func(addr ssa.Value, depth int)
+	collect = func(addr ssa.Value, depth int) {
+		if depth > 4 || addr.Referrers() == nil {
+			return
+		}
+		st := addr.Type().Underlying().(*types.Pointer).Elem().Underlying().(*types.Struct)
+		for _, ref := range *addr.Referrers() {
+			switch x := ref.(type) {
+			case *ssa.FieldAddr:
+				if st.Field(x.Field).Name() != "Flag" {
+					continue
+				}
+				for _, r2 := range *x.Referrers() {
+					if s, ok := r2.(*ssa.Store); ok && s.Addr == ssa.Value(x) {
+						flagOs = append(flagOs, res.Of(s.Val, nil, s))
+					}
+				}
+			case *ssa.Store:
+				if x.Addr != addr {
+					continue
+				}
+				if src, ok := x.Val.(*ssa.UnOp); ok && src.Op == token.MUL {
+					if tmp, ok := src.X.(*ssa.Alloc); ok {
+						n := len(flagOs)
+						collect(tmp, depth+1)
+						if len(flagOs) == n {
+							flagOs = append(flagOs, &origin.O{Kind: origin.KConst}) // a literal without Flag: zero
+						}
+						continue
+					}
+				}
+				flagOs = append(flagOs, res.Of(x.Val, nil, x))
+			case *ssa.MakeClosure:
+				if fn, _ := x.Fn.(*ssa.Function); fn != nil {
+					for i, b := range x.Bindings {
+						if b == addr && i < len(fn.FreeVars) {
+							collect(fn.FreeVars[i], depth+1)
+						}
+					}
 				}
 			}
 		}
 	}
+	collect(al, 0)
 	or := e.Oracle()
 	// every alternative value of the flag carries the TSYNC bit (constants, joins of constants, x | constant)
 	var hasBit func(o *origin.O, depth int) bool
@@ -1163,6 +1244,10 @@ func runC11(e *Env) {
 		r.Unknown("E3.nnp", "LoadFilter", "", "LoadFilter, the seccomp wrapper or the prctl wrapper not found")
 		return
 	}
+	mk := r.Mark()
+	defer func() {
+		traceFallback(e, m, mk, []string{"nnp", "pin"}, "E3.nnp", "E3.nnp.dep", "E3.nnp.before", "E3.nnp.via", "E3.pin")
+	}()
 	pc := callsReaching(fn, m.prctlW)
 	sc := callsToFn(fn, m.seccompW)
 	r.Floor("E3.nnp(prctl-reaching calls)", len(pc), 1)
@@ -1269,7 +1354,7 @@ func checkPrctlMust(e *Env, m *loaderModel, pc []*ssa.Call) {
 			return
 		}
 		seen[f] = true
-		r.Check(establishes(f, isWrapper, 0), "E3.nnp.must", load.FuncName(f)+"/nil-only-after-prctl", p.Pos(f.Pos()),
+		r.Check(establishes(f, isWrapper, 0), "E3.nnp.via", load.FuncName(f)+"/nil-only-after-prctl", p.Pos(f.Pos()),
 			"returns nil only behind the checked success of the prctl wrapper: a nil result means the bit was set on the calling thread by this call",
 			load.FuncName(f)+" can return nil without having called prctl on the calling thread (for example because an earlier success is remembered): no_new_privs is a per-thread attribute, so the thread that calls seccomp(2) may not have it and an unprivileged load fails with EACCES")
 		for _, c := range flow.Calls(f) {
@@ -1534,6 +1619,11 @@ func checkR1CasesRule(e *Env, m *loaderModel, s *rawSite, key, rule string) {
 	r1v := flow.ResultN(s.call, 0)
 	errv := flow.ResultN(s.call, 2)
 	type env struct{ flags, r1, op int64 }
+	// the errno of the call converted by a helper that maps 0 to nil
+	nilErrno := func(v ssa.Value) bool {
+		c, ok := v.(*ssa.Call)
+		return ok && errv != nil && len(c.Call.Args) == 1 && c.Call.Args[0] == errv && errnoHelper(flow.Callee(c))
+	}
 	// phi values are resolved by the edge the path came in on (short-circuit && / || in a case expression)
 	phiVal := map[*ssa.Phi]int64{}
 	var eval func(v ssa.Value, en env, depth int) (int64, bool)
@@ -1582,16 +1672,22 @@ func checkR1CasesRule(e *Env, m *loaderModel, s *rawSite, key, rule string) {
 				return 0, ok
 			}
 		case *ssa.BinOp:
-			a, ok1 := eval(x.X, en, depth+1)
-			b, ok2 := eval(x.Y, en, depth+1)
-			if !ok1 || !ok2 {
-				return 0, false
-			}
 			bv := func(c bool) (int64, bool) {
 				if c {
 					return 1, true
 				}
 				return 0, true
+			}
+			// errnoErr(e) ==/!= nil: errno is 0 in every case, so the converted error is nil
+			if x.Op == token.EQL || x.Op == token.NEQ {
+				if (nilErrno(x.X) && flow.IsNilConst(x.Y)) || (nilErrno(x.Y) && flow.IsNilConst(x.X)) {
+					return bv(x.Op == token.EQL)
+				}
+			}
+			a, ok1 := eval(x.X, en, depth+1)
+			b, ok2 := eval(x.Y, en, depth+1)
+			if !ok1 || !ok2 {
+				return 0, false
 			}
 			switch x.Op {
 			case token.AND:
@@ -1674,7 +1770,7 @@ func checkR1CasesRule(e *Env, m *loaderModel, s *rawSite, key, rule string) {
 				continue
 			}
 			res := flow.RetResults(ret)
-			isNil := flow.IsNilConst(res[len(res)-1])
+			isNil := flow.IsNilConst(res[len(res)-1]) || nilErrno(res[len(res)-1])
 			mustFail := flags&tsync != 0 && flags&esrch == 0 && r1 != 0
 			if mustFail && isNil {
 				bad++
